@@ -340,8 +340,8 @@ func (fl *flattener) runFrom(f *ssa.Function, start *ssa.BasicBlock, bind map[ss
 				case 0:
 					walk(b.Succs[1], b, env, pc, eff, 0)
 				default:
-					walk(b.Succs[0], b, env, append(append([]string{}, pc...), canonCond(t, false)), eff, 0)
-					walk(b.Succs[1], b, env, append(append([]string{}, pc...), canonCond(t, true)), eff, 0)
+					walk(b.Succs[0], b, env, append(append([]string{}, pc...), registerCond(t, false)), eff, 0)
+					walk(b.Succs[1], b, env, append(append([]string{}, pc...), registerCond(t, true)), eff, 0)
 				}
 				return
 			case *ssa.Jump:
